@@ -507,11 +507,9 @@ type getter func(ctx context.Context, url string, start, limit uint64) ([]eth.Bl
 
 func (c *cache) pruneMaxRead() {
 	for k, v := range c.segments {
-		v.Lock()
 		if v.nreads >= c.maxreads {
 			delete(c.segments, k)
 		}
-		v.Unlock()
 	}
 }
 
@@ -546,12 +544,16 @@ func (c *cache) get(nocache bool, ctx context.Context, url string, start, limit 
 		seg = &segment{}
 		c.segments[key{start, limit}] = seg
 	}
+	// The read is counted while the cache is locked so that
+	// concurrent readers cannot all pass the maxreads check
+	// before any of them is counted. nreads is only accessed
+	// with the cache's lock held.
+	seg.nreads++
 	c.pruneSegments()
 	c.Unlock()
 
 	seg.Lock()
 	defer seg.Unlock()
-	seg.nreads++
 	if seg.done {
 		return copyBlocks(seg.d), nil
 	}
